@@ -68,9 +68,11 @@ impl CodeGenerator {
             // default = false when less than half of the bits should be active
             // sparcity = portion of non-default values
             let default = sparsity > 0.5;
-            let sparsity = (100.0 * f32::min(sparsity, 1.0 - sparsity)).round() / 100.0;
+            // share of non-default bits in whole percent; the count is taken in integer
+            // arithmetic (0.42 * 150.0 is 62.999996 in single precision)
+            let percent = (100.0 * f32::min(sparsity, 1.0 - sparsity)).round() as i64;
             let mut bool_vector = vec![default; size as usize];
-            let num_active_bits = (sparsity * size as f32) as i32;
+            let num_active_bits = (percent * size as i64 / 100) as i32;
             for _i in 1..num_active_bits + 1 {
                 loop {
                     let rand_idx = rng.gen_range(0..size) as usize;
